@@ -2,9 +2,9 @@
     About Auth/SaslListener.v, the model of the listener's SASL layer at the
     granularity of whole client actions (run against the real listener with PLAIN
     and SCRAM-SHA-1/256/512 acceptors on abstracted scripts every run).  The
-    SCRAM client's clauses are decided on the implementation by the direct
-    oracle against a scripted server (see DESIGN.md). *)
-From FV Require Import Auth.SaslListener Proofs.SaslProofs.
+    SCRAM client is modelled in Auth/ScramClient.v (run against the real client,
+    three hash variants, against a scripted, tampering server every run). *)
+From FV Require Import Auth.SaslListener Proofs.SaslProofs Auth.ScramClient Proofs.ScramClientProofs.
 
 (** Whatever the client does: if the listener ever writes outcome OK, the AMQP
     header or its open, or accept() returns a connection, then the client's
@@ -36,3 +36,33 @@ Theorem C19_valid_accepted :
             end).
 Proof. exact valid_accepted. Qed.
 Print Assumptions C19_valid_accepted.
+
+(** ** The SCRAM client (Auth/ScramClient.v) *)
+
+(** Whatever the server sends: if the client ever writes the AMQP header or its open, or open() returns a
+    connection, the server's messages began with exactly the proving exchange - SASL header, a mechanism list
+    offering the client's mechanism, a well-formed challenge whose nonce extends the client's, and outcome ok
+    carrying the server signature computed from the password. *)
+Theorem C19_client_trusts_only_a_proving_server :
+  forall vs s os, crun CWaitHdr vs = (s, os) -> existsb trusts (concat os) = true ->
+    cis_prefix proving_exchange vs = true.
+Proof. exact client_trusts_only_a_proving_server. Qed.
+Print Assumptions C19_client_trusts_only_a_proving_server.
+
+(** The first message that departs from it fails the negotiation at once: open() returns an error and neither
+    the AMQP header nor an open is written. *)
+Theorem C19_client_deviation_fails :
+  forall s v n0 rest, cneed s = Some (n0 :: rest) -> sev_eqb v n0 = false ->
+    fst (cstep s v) = CFailed /\ (exists e, In (RErr e) (snd (cstep s v))) /\ existsb trusts (snd (cstep s v)) = false.
+Proof. exact deviation_fails_client. Qed.
+Print Assumptions C19_client_deviation_fails.
+
+Theorem C19_client_ok_without_proof_refused :
+  (forall d, d <> DGood -> cstep CWaitOutcome (VOutcome KOk d) = (CFailed, [RErr EScram])) /\
+  cstep CWaitChal (VChal false) = (CFailed, [RErr EScram]).
+Proof. split; [exact ok_without_proof_refused|exact bad_challenge_refused]. Qed.
+Print Assumptions C19_client_ok_without_proof_refused.
+
+Example C19_client_proving_accepted :
+  crun CWaitHdr (proving_exchange ++ [VAmqp]) = (CDone, [[]; [OInit]; [OResp]; [OAmqpHdr]; [OOpen; ROk]]).
+Proof. exact proving_accepted. Qed.
